@@ -544,13 +544,71 @@ def address_sweep(seed, part, res):
     res.outcome(('sweep',))
 
 
+def live_source_history(seed, res):
+    """The data argument IS a region's storage as the public accessor hands it out (g.sfx.to_bytes(), unsliced - also as
+    memoryview, and a caller's own bytearray): copying one region over another address, over itself, into another cart.
+    Every ordered pair (source region, destination address at each boundary -2..+2 that keeps the write inside the map);
+    after each write both carts equal the flat model - the source region and the caller's buffer included."""
+    pat = fill(seed, 0)
+    for how in ('live', 'memoryview', 'own-bytearray'):
+        for other_cart in (False, True):
+            for sname, slo, shi in REGIONS:
+                n = shi - slo
+                for b in BOUNDARIES:
+                    for d in (-2, 0, 1):
+                        dst = b + d
+                        if dst < 0 or dst + n > TOTAL:
+                            continue
+                        if not other_cart and how != 'own-bytearray' and dst != slo and dst < shi and slo < dst + n:
+                            # (the write would read its own, partly overwritten, source: whether data is a value or a
+                            # view at that moment is the caller's business, the statement speaks of data as a value)
+                            continue
+                        g = make_game(pat)
+                        src_g = make_game(fill(seed, 3)) if other_cart else g
+                        src_model = fill(seed, 3)[:TOTAL] if other_cart else pat[:TOTAL]
+                        live = getattr(src_g, sname).to_bytes()
+                        want_data = bytes(live)
+                        if how == 'memoryview':
+                            data = memoryview(live)
+                        elif how == 'own-bytearray':
+                            data = bytearray(want_data)
+                        else:
+                            data = live
+                        res.evaluations += 1
+                        res.transitions += 1
+                        res.nontriv(('live', how, other_cart, sname, dst))
+                        case = {'live_source': True, 'seed': seed}
+                        sig = 'C18|live-source|%s|%s|src=%s|dst=%s' % (how, 'other-cart' if other_cart else 'same-cart', sname, rel(dst))
+                        try:
+                            g.write_cart_data(data, dst)
+                        except Exception as e:
+                            res.violation(sig + '|raise|' + type(e).__name__, 'write_cart_data(%s.to_bytes() as %s, %#x) raised %r' % (sname, how, dst, e), case)
+                            continue
+                        model = bytearray(pat[:TOTAL])
+                        model[dst:dst + n] = want_data
+                        if image(g) != bytes(model):
+                            sizes = [len(getattr(g, nm)._data) for nm, _, _ in REGIONS]
+                            res.violation(sig + '|destination-cart', 'after write_cart_data(%s.to_bytes() as %s, %#x) the cart differs from the model '
+                                          '(region sizes %r)' % (sname, how, dst, sizes), case)
+                            continue
+                        if other_cart and image(src_g) != bytes(src_model):
+                            sizes = [len(getattr(src_g, nm)._data) for nm, _, _ in REGIONS]
+                            res.violation(sig + '|source-cart', 'copying %s of another cart to %#x changed THAT cart (region sizes %r)' % (sname, dst, sizes), case)
+                            continue
+                        if how == 'own-bytearray' and bytes(data) != want_data:
+                            res.violation(sig + '|caller-buffer', 'write_cart_data changed the caller\'s bytearray (%d -> %d bytes)' % (n, len(data)), case)
+                            continue
+                        res.outcome(('live', how, other_cart))
+    res.states += 1
+
+
 def region_of(a):
     return next((n for n, lo, hi in REGIONS if lo <= a < hi), 'none')
 
 
 def shards(tier, seed):
     depth, deltas = plan(tier)
-    return [(tier, seed, init, i) for init in (0, 1) for i in range(len(WRITES[deltas[0]]))] + [('replace', seed), ('alias', seed), ('loaded', seed), ('twins', seed), ('oddsize', seed)] + [('sweep', seed, k) for k in range(SWEEP_PARTS)]
+    return [(tier, seed, init, i) for init in (0, 1) for i in range(len(WRITES[deltas[0]]))] + [('replace', seed), ('alias', seed), ('loaded', seed), ('twins', seed), ('oddsize', seed), ('live', seed)] + [('sweep', seed, k) for k in range(SWEEP_PARTS)]
 
 
 def run_shard(item):
@@ -564,6 +622,11 @@ def run_shard(item):
         address_sweep(item[1], item[2], res)
         if item[2] == 0:
             res.sample({'history': 'a 1-byte write at every address 0..0x42ff (8 stripes), 5-byte writes at every 3rd, 600-byte writes at every 257th'})
+        return res
+    if item[0] == 'live':
+        res = ShardResult()
+        live_source_history(item[1], res)
+        res.sample({'history': 'g.write_cart_data(g.music.to_bytes(), 0x3000): the data is the live storage of a region'})
         return res
     if item[0] == 'oddsize':
         res = ShardResult()
@@ -601,6 +664,9 @@ def replay(case):
     if 'replace' in case:
         replace_history(0, res)
         return [(s, v[0]) for s, v in res.violations.items()]
+    if 'live_source' in case:
+        live_source_history(case.get('seed', 0), res)
+        return [(s_, v[0]) for s_, v in res.violations.items()]
     if 'sweep' in case:
         address_sweep(0, case['sweep'], res)
         return [(s_, v[0]) for s_, v in res.violations.items()]
